@@ -4,6 +4,7 @@ import ast
 from ..core.db import AnalysisError, norm_stmt, walk_no_nested
 from ..core.interp import Const, Tup, Unknown, LambdaRef, Frame
 from .common import norm_interp, returns, as_rat, show, Sym, Arr, Rat, _rat
+from .purity import input_mutations
 
 M = 'prysm.x.polarization.'
 
@@ -46,6 +47,7 @@ def check(run, db, tier):
     run.rule('C20.wrappers', 'half/quarter wave plates are linear retarders of pi, pi/2; polarizer is the alpha=0 diattenuator')
     run.rule('C20.pauli', 'sum_i c_i sigma_i == J entrywise')
     run.rule('C20.mueller', 'jones_to_mueller(J)[i,j] == 1/2 tr(sigma_i J sigma_j J^H) for a generic complex J, both code paths')
+    run.rule('C20.pure', 'no constructor writes in place through an argument (spatially varying elements are reproducible)')
     run.rule('C20.adapter', 'the propagation adapter maps component (i,j) to component (i,j)')
 
     def call(name, **kw):
@@ -190,6 +192,25 @@ def check(run, db, tier):
         bad = min(verdicts, key=len)
         run.check(not bad, 'C20.mueller', fm.qual, 'broadcast=%s' % bc, 'all 16 entries equal 1/2 tr(s_i J s_j J^H) (either S3 handedness)',
                   'entries differ: ' + '; '.join('M[%d,%d]=%s expected %s' % b for b in bad[:3]), fm.loc())
+
+    # both code paths of the Mueller map agree with each other (batched == elementwise conversion)
+    mv = []
+    for bc in (True, False):
+        ps = returns(it.run(fm, args=Jatoms, kwargs=lambda: {'broadcast': Const(bc)}), fm)
+        mv.append(ps[0].value)
+    same = isinstance(mv[0], Arr) and isinstance(mv[1], Arr) and all(as_rat(dom, x, 'M') == as_rat(dom, y, 'M') for x, y in zip(mv[0].data, mv[1].data))
+    run.check(same, 'C20.mueller', fm.qual, 'path agreement', 'broadcast and non-broadcast conversions give the same matrix',
+              'jones_to_mueller(broadcast=True) and (broadcast=False) give different matrices (the two Kronecker products disagree)', fm.loc())
+
+    # constructors do not write through their arguments
+    for nm in ('jones_rotation_matrix', 'linear_retarder', 'linear_diattenuator', 'half_wave_plate', 'quarter_wave_plate', 'linear_polarizer',
+               'vector_vortex_retarder', 'jones_to_mueller', 'pauli_coefficients', 'broadcast_kron', 'linear_pol_vector', 'apply_polarization_optic'):
+        fi = db.func(M + nm)
+        muts = input_mutations(fi)
+        for st, name in muts:
+            run.finding('C20.pure', fi.qual, norm_stmt(st), 'in-place write through the argument `%s`: the caller\'s array is modified, so a second construction from the same grid differs from the first' % name, fi.loc(st))
+        if not muts:
+            run.ok('C20.pure', fi.qual, 'no in-place write through an argument')
 
     # adapter
     fa = db.func(M + 'jones_adapter')
